@@ -163,6 +163,8 @@ def run(ctx):
         raise tlc.MachineryFailure("InvFilter export too small")
     link_cases = []
     shared_cases: list = []
+    n_order = 0
+    order_cases: list = []
     seen = set()
     for rec in rfg.records:
         key = (repr(rec["inv"]), repr(rec["flt"]))
@@ -172,21 +174,28 @@ def run(ctx):
         _replay_filter(ctx, I, rec)
         if rec["inv"] and len(link_cases) < (300 if quick else 3000) and rnd.random() < 0.02:
             link_cases.append(rec)
-        elif len(rec["out"]) >= 2 and len(shared_cases) < 150 and rec["flt"][3] != NONE:
+        elif len(rec["out"]) >= 2 and rec["flt"][3] != NONE:
             hit = [[c2s(x) for x in rec["inv"][k_ - 1]] for k_ in rec["out"]]
-            if len({h[0] for h in hit}) == 1 and all(h[3].startswith("a") for h in hit):
+            if hit[0][0] == "k2" and any(h[0] == "k" for h in hit) and n_order < 150:
+                n_order += 1
+                order_cases.append(rec)        # matches in two inventories configured in NON-alphabetical order: the first in configuration order is rendered
+                continue
+            if len(shared_cases) < 150 and len({h[0] for h in hit}) == 1 and all(h[3].startswith("a") for h in hit):
                 shared_cases.append(rec)        # several matches that all resolve to one location: still ambiguous
     ctx.sample({"filter_case": _pretty(rfg.records[len(rfg.records) // 3])})
 
     # ---- R: inv: links in real documents ---------------------------------------------
-    for k, rec in enumerate(link_cases + shared_cases):
+    for k, rec in enumerate(link_cases + shared_cases + order_cases):
         _replay_link(ctx, rec, k)
+    ctx.leg("R-link", documents=len(link_cases) + len(shared_cases) + len(order_cases), two_inventories_unsorted=n_order)
+    if n_order == 0:
+        raise tlc.MachineryFailure("no link case with matches in two inventories configured in non-alphabetical order")
 
     # ---- V: larger random inventories ------------------------------------------------
     ftraces = []
-    pool_inv, pool_dom, pool_typ = ["k", "k2", "x*y"], ["py", "s", "std"], ["f", "fn", "label"]
-    pool_tgt = ["a", "ab", "*", "a.b", "a*b", "b\\", "mod.f"]
-    pats = [None, "*", "a", "a*", "\\*", "*b", "k*", "p*", "s*d", "f", "f*", "a\\", "*.*", "a.b", "x\\*y", "b\\"]
+    pool_inv, pool_dom, pool_typ = ["k", "k2", "x*y"], ["py", "s", "std"], ["f", "fn", "label", "term"]
+    pool_tgt = ["a", "ab", "*", "a.b", "a*b", "b\\", "mod.f", "A", "Ab"]
+    pats = [None, "*", "a", "a*", "\\*", "*b", "k*", "p*", "s*d", "f", "f*", "a\\", "*.*", "a.b", "x\\*y", "b\\", "ab", "A*", "l*"]
     for t in range(300 if quick else 20000):
         ents = []
         for i_ in rnd.sample(pool_inv, rnd.randint(1, 3)):
@@ -196,19 +205,25 @@ def run(ctx):
                         ents.append([i_, d, ty, n])
         ents = ents[:10]
         flt = [rnd.choice(pats) for _ in range(4)]
+        if t % 3 == 0:
+            flt[:3] = [rnd.choice([None, "*"]) for _ in range(3)]      # only the target decides
         native = _native(ents)
-        got = [[m.inv, m.domain, m.otype, m.name] for m in I.filter_inventories(
-            native, invs=flt[0], domains=flt[1], otypes=flt[2], targets=flt[3])]
         order = _order(native)
-        try:
-            out = [order.index(g) + 1 for g in got]
-        except ValueError:
-            ctx.violation("filter_inventories returned an entry that is not in the inventories",
-                          {"leg": "V-filter", "entries": ents, "filter": flt, "got": got})
-            continue
-        ctx.count(("vf", repr(ents), repr(flt)))
-        ftraces.append({"id": t, "inv": [[s2c(x) for x in e] for e in order],
-                        "flt": [NONE if p is None else s2c(p) for p in flt], "out": out})
+        # the same filter on both representations (native mapping; Sphinx's named-inventory mapping): each recorded result
+        # is a trace of its own -- the matching is the SAME relation for every domain and type (names keep their case)
+        sph = {k_: I.to_sphinx(v_) for k_, v_ in native.items()}
+        for rep, fn, data in (("native", I.filter_inventories, native), ("sphinx", I.filter_sphinx_inventories, sph)):
+            got = [[m.inv, m.domain, m.otype, m.name] for m in fn(
+                data, invs=flt[0], domains=flt[1], otypes=flt[2], targets=flt[3])]
+            try:
+                out = [order.index(g) + 1 for g in got]
+            except ValueError:
+                ctx.violation(f"filter ({rep} representation) returned an entry that is not in the inventories",
+                              {"leg": "V-filter", "entries": ents, "filter": flt, "got": got})
+                continue
+            ctx.count(("vf", rep, repr(ents), repr(flt)))
+            ftraces.append({"id": len(ftraces), "rep": rep, "inv": [[s2c(x) for x in e] for e in order],
+                            "flt": [NONE if p is None else s2c(p) for p in flt], "out": out})
     tf = ctx.wd / "f_traces.ndjson"
     tlc.write_ndjson(tf, ftraces)
     cfg = tlc.write_cfg(ctx.wd / "f_trace.cfg", spec="TraceSpec", constants={"MaxEntries": 0, "DevDropTrailing": False},
@@ -222,8 +237,8 @@ def run(ctx):
         ctx.traces_validated += 1
         if not (v["m"] and v["s"]):
             tr = byid[v["id"]]
-            ctx.violation("recorded filter_inventories result is not the selection the specification allows",
-                          {"leg": "V-filter", "entries": [[c2s(x) for x in e] for e in tr["inv"]],
+            ctx.violation(f"recorded filter result ({tr['rep']} representation) is not the selection the specification allows",
+                          {"leg": "V-filter", "representation": tr["rep"], "entries": [[c2s(x) for x in e] for e in tr["inv"]],
                            "filter": [None if p == NONE else c2s(p) for p in tr["flt"]], "observed_indices": tr["out"]})
     ctx.exhaustive = quick
 
